@@ -179,7 +179,10 @@ func TestC10_ClientAuthentication(t *testing.T) {
 		endpoint := rapid.SampledFrom([]string{"token/client_credentials", "token/client_credentials", "token/authorization_code", "token/refresh_token", "token/password", "token/device_code", "token/jwt_bearer", "revoke", "par", "device_authorization"}).Draw(rt, "endpoint")
 		var code, refresh, access, deviceCode string
 		jtiN := 0
-		nextJTI := func() string { jtiN++; return fmt.Sprintf("jti-%d-%s", jtiN, rapid.StringMatching("[a-z]{8}").Draw(rt, "jti")) }
+		nextJTI := func() string {
+			jtiN++
+			return fmt.Sprintf("jti-%d-%s", jtiN, rapid.StringMatching("[a-z]{8}").Draw(rt, "jti"))
+		}
 		switch endpoint {
 		case "token/authorization_code":
 			ar := w.Authorize(url.Values{"client_id": {c.id}, "response_type": {"code"}, "state": {"state-0123456789"}, "redirect_uri": {redirectURI}, "scope": {"a"}}, h.Consent{})
@@ -287,7 +290,7 @@ func TestC10_ClientAuthentication(t *testing.T) {
 		case "id-only":
 			form.Set("client_id", c.id)
 		case "malformed-header":
-			auth = h.Auth{RawHeader: rapid.SampledFrom([]string{"Basic !!!notbase64", "Basic " + base64.StdEncoding.EncodeToString([]byte("nocolon")), "Bearer " + value, "Basic", "Digest x", "Basic " + base64.StdEncoding.EncodeToString([]byte(":" + value))}).Draw(rt, "header")}
+			auth = h.Auth{RawHeader: rapid.SampledFrom([]string{"Basic !!!notbase64", "Basic " + base64.StdEncoding.EncodeToString([]byte("nocolon")), "Bearer " + value, "Basic", "Digest x", "Basic " + base64.StdEncoding.EncodeToString([]byte(":"+value))}).Draw(rt, "header")}
 		case "assertion", "assertion-other-method":
 			key, alg := c.key, c.alg
 			if key == nil || transport == "assertion-other-method" {
